@@ -336,8 +336,7 @@ def noisy_average_part(rep, rng, drv, NQ, switches, n_cases, replay):
         for j in bad:
             kw = dict(finding_key=KEY_F4) if f4 else {}
             rep.violate(what="average_tuning_curve differs from the integral of y d[F^n] (adaptive quadrature of the class's own cdf) by more than "
-                             "100*max(atol, 1e-6*(b-a+12o))" + (": premature convergence of the trapezoid rule at the 1[y>0] jump inside [a-6o, b+6o] "
-                                                                  "(the value equals the Lean model of the documented loop)" if f4 else ""),
+                             "100*max(atol, 1e-6*(b-a+12o))" + (": premature stop of the trapezoid refinement (the value equals the Lean model of the loop, so the error estimate itself was fooled)" if f4 else ""),
                         input=dict(inp, n=C.fhex(ns[j])), expected=truths[j], observed=vals[j], tolerance=tol,
                         call="NoisyQuadraticDistribution.average_tuning_curve", detail=dict(shown, model=m), **kw)
         if len(ns) > 1:
@@ -357,7 +356,7 @@ def noisy_average_part(rep, rng, drv, NQ, switches, n_cases, replay):
 
 
 def point_mass_part(rep, rng, drv, NQ):
-    """a = b: o = 0 (point mass; finding F5 on the unchanged tree) and o > 0 (a normal distribution)"""
+    """a = b: o = 0 (point mass; finding F5, repaired by fd4085d) and o > 0 (a normal distribution)"""
     for (a, c, convex, o, n, mn) in [(2.0, 3, False, 0.0, 10.0, None), (0.0, 1, True, 0.0, 1.0, False), (-1.5, 10, True, 0.0, 1000.0, True),
                                      (2.0, 3, False, 0.5, 10.0, None), (0.0, 5, True, 1e-3, 100.0, True)]:
         inp = dict(cls="NoisyQuadraticDistribution", a=C.fhex(a), b=C.fhex(a), c=c, o=C.fhex(o), convex=convex, minimize=mn, ns=hexl([n]), atol=None)
@@ -369,17 +368,16 @@ def point_mass_part(rep, rng, drv, NQ):
         rep.case(("navg_point", inp["a"], c, inp["o"], convex, mn, C.fhex(n)), sample=dict(a=a, b=a, c=c, o=o, n=n, minimize=mn, impl=str(vals or status)))
         eff = convex if mn is None else mn
         if status != "ok":
-            kw = {}
-            if o == 0.0:
-                # explicit predicate for F5: a == b and o == 0, the call does not come back, and the Lean model of the documented
-                # loop does not stop either (theorem C08.navg_point_mass_never_stops; here: 12 rounds without a stop)
-                m = model_navg(drv, a, a, c, o, convex, mn, None, [n], cap=12)
-                if m["status"] == "capped":
-                    kw = dict(finding_key=KEY_F5)
-            rep.violate(what=f"average_tuning_curve of the point-mass member did not return within 60 s / 1 GiB of additional memory ({status})"
-                             + (": h = 0 and atol = 0, so `err < atol` never holds" if kw else ""),
-                        input=inp, expected=a, call="NoisyQuadraticDistribution.average_tuning_curve", **kw)
+            rep.violate(what=f"average_tuning_curve of the a=b member did not return within 60 s / 1 GiB of additional memory ({status})"
+                             + (": the point mass (h = 0, atol = 0) must stop at round 4 with `err <= atol` (theorem C08.navg_point_mass_returns; "
+                                "finding F5, repaired by fd4085d, has returned)" if o == 0.0 else ""),
+                        input=inp, expected=a, call="NoisyQuadraticDistribution.average_tuning_curve")
             continue
+        if o == 0.0:
+            # the model of the loop on the point mass: stops at round 4 and returns a (theorem C08.navg_point_mass_returns)
+            m = model_navg(drv, a, a, c, o, convex, mn, None, [n], cap=12)
+            if not (m["status"] == "ok" and m["rounds"] == 4 and m["values"] == [a]):
+                rep.disagree(op="quad.navg", input=inp, model=m, impl=vals, note="the Lean model of the loop does not return a at round 4 for the point mass")
         S = 12 * o
         truth = a if o == 0 else Q.expect_best(d, n, eff, a, a, o, 1e-9 * S)
         tol = 100 * max(1e-6 * S, 1e-6 * S)
